@@ -8,6 +8,7 @@ from common import Check
 import population
 
 LOOSE_KEY = "loose-action-scheduling"
+ENDFOREACH_KEY = "foreach-actions-at-end-inside-wait"
 
 
 def work(job):
@@ -16,10 +17,13 @@ def work(job):
     args = ["-O1"] + prog["args"]
     r = refine.refine(prog["src"], args, timeout=25)
     out = {"name": prog["name"], "status": r["status"], "detail": r.get("detail", ""), "word": r.get("word"),
-           "nstates": r.get("nstates", 0), "loose": None, "O3": None}
+           "nstates": r.get("nstates", 0), "loose": None, "O3": None, "endforeach": None}
     if r["status"] == "mismatch":
         r2 = refine.refine(prog["src"], args, timeout=40, strict_done="0L")
         out["loose"] = r2["status"]
+        if r2["status"] == "mismatch" and r.get("word") and r["word"][-1] == 256:
+            r5 = refine.refine(prog["src"], args, timeout=40, strict_done="0E")
+            out["endforeach"] = r5["status"]
     elif r["status"] in ("closed", "closed-relaxed") and prog.get("also_O3"):
         r3 = refine.refine(prog["src"], ["-O3"] + prog["args"], timeout=40)
         out["O3"] = r3["status"]
@@ -85,6 +89,10 @@ def run(pid, theorems, module, progs, rule, known_corpus=()):
                 if prog.get("known_key"):
                     key = prog["known_key"]
                     what = f"{r['name']}: {prog.get('known_what', 'listed finding')}; witness word {r['word']}"
+                elif r.get("endforeach") in ("closed", "closed-relaxed"):
+                    key = ENDFOREACH_KEY
+                    what = (f"{r['name']}: end-of-input met inside a wait runs the per-byte actions of the enclosing "
+                            f"foreach; witness word {r['word']}")
                 elif r["loose"] in ("closed", "closed-relaxed"):
                     key = LOOSE_KEY
                     what = (f"{r['name']}: differs from the reference only in the scheduling of loose actions "
